@@ -9,7 +9,7 @@ RULE = ('kind=enum: every edge set of the nu x nv partition given by the bit mas
         'crowns) against the duality certificate and an independent augmenting-path matching; a graph is distinct by '
         '(nu, nv, edge list); non-trivial unless 1x1')
 BOUNDS = {'quick': 'exhaustive: all edge sets for nu,nv<=4 except 4x4, of which every 4th mask (offset seed%4); 900 random graphs <=60x60',
-          'thorough': 'exhaustive: all edge sets for nu,nv<=4; every 16th mask of 5x5 and all of 4x5/5x4; 9000 random graphs <=60x60'}
+          'thorough': 'exhaustive: all edge sets for nu,nv<=4; every 8th mask of 5x5 (offset seed%8) and all of 4x5/5x4; 9000 random graphs <=60x60'}
 EXHAUSTIVE = {'quick': True, 'thorough': True}      # the stated "exhaustive" part of the bounds is enumerated completely
 
 CHUNK = 256
@@ -29,7 +29,7 @@ def cases(tier, seed):
             if tier == 'quick' and (nu, nv) == (4, 4):
                 stride, off = 4, seed % 4
             if (nu, nv) == (5, 5):
-                stride, off = 16, seed % 16
+                stride, off = 8, seed % 8
             size = CHUNK * stride * (8 if total > (1 << 22) else 1)
             lo = 0
             while lo < total:
@@ -89,12 +89,16 @@ def check_graph(nu, nv, edges, opt, fail, tag):
         G = bg.BipartiteGraph(nu, nv, list(edges))
         matching = bg.HopcroftKarp(G)()
     except Exception as e:
+        if type(e).__name__ == 'CaseTimeout':      # the runner's wall-clock alarm must reach the runner
+            raise
         fail('returns', 'HopcroftKarp', f'{tag}: raised {type(e).__name__}: {e}')
         matching = None
     try:
         G2 = bg.BipartiteGraph(nu, nv, list(edges))
         cover = bg.minimum_vertex_cover(G2)
     except Exception as e:
+        if type(e).__name__ == 'CaseTimeout':      # the runner's wall-clock alarm must reach the runner
+            raise
         fail('returns', 'minimum_vertex_cover', f'{tag}: raised {type(e).__name__}: {e}')
         cover = None
     msize = None
@@ -102,7 +106,9 @@ def check_graph(nu, nv, edges, opt, fail, tag):
         ok = True
         try:
             pairs = [(int(u), int(v)) for (u, v) in matching]
-        except Exception:
+        except Exception as e:
+            if type(e).__name__ == 'CaseTimeout':      # the runner's wall-clock alarm must reach the runner
+                raise
             pairs = None
         if pairs is None:
             fail('matching_type', 'HopcroftKarp', f'{tag}: matching {matching!r} is not a list of pairs'); ok = False
@@ -118,7 +124,9 @@ def check_graph(nu, nv, edges, opt, fail, tag):
         try:
             uc, vc = cover
             uc = [int(x) for x in uc]; vc = [int(x) for x in vc]
-        except Exception:
+        except Exception as e:
+            if type(e).__name__ == 'CaseTimeout':      # the runner's wall-clock alarm must reach the runner
+                raise
             fail('cover_type', 'minimum_vertex_cover', f'{tag}: cover {cover!r} is not a pair of vertex lists')
             return
         ok = True
